@@ -2163,7 +2163,9 @@ fn fmt_corpus() -> Vec<String> {
         members.push(format!("type Deco{{N}}x{} ({})", members.len(), chunk.join(", ")));
         members.push(format!("method Deco{{N}}x{}({}) -> ({})", members.len(), chunk[..chunk.len() / 2].join(", "), chunk[chunk.len() / 2..].join(", ")));
     }
-    let docs: [&[&str]; 3] = [&[], &["# one line of documentation"], &["# first line", "#   second line, indented", "#", "# after an empty comment line"]];
+    let docs: [&[&str]; 4] = [&[], &["# one line of documentation"], &["# first line", "#   second line, indented", "#", "# after an empty comment line"],
+        // a documentation block with CRLF line endings (the `\r` belongs to the comment line it ends)
+        &["# crlf first line\r", "# crlf second line\r", "# crlf third line"]];
     let mut out = Vec::new();
     let n = members.len();
     let mut seqs: Vec<Vec<usize>> = Vec::new();
@@ -2171,16 +2173,20 @@ fn fmt_corpus() -> Vec<String> {
     // triples over a reduced set (one of each kind / shape)
     let red = [0usize, 1, 3, 4, 6, 9];
     for a in red { for b in red { for c in red { seqs.push(vec![a, b, c]); } } }
-    for idoc in 0..2 {
-        for d in 0..3 {
+    for idoc in 0..3 {
+        for d in 0..4 {
+            // the CRLF layouts go together and only with the short sequences over the first dozen templates (keeps the run short)
+            if (idoc == 2) != (d == 3) { continue; }
             for s in &seqs {
+                if d == 3 && (s.len() > 2 || s.iter().any(|k| *k >= 12)) { continue; }
                 let mut t = String::new();
                 if idoc == 1 { t.push_str("# The interface documentation\n# in two lines\n"); }
+                if idoc == 2 { t.push_str("# The interface documentation\r\n# in two lines, CRLF\r\n"); }
                 t.push_str("interface org.example.fmt\n");
                 for (pos, m) in s.iter().enumerate() {
                     t.push('\n');
                     // vary the documentation per member position so that a doc attached to the wrong member shows
-                    let dd = docs[(d + pos) % 3];
+                    let dd = docs[(d + pos) % 4];
                     for l in dd { t.push_str(l); t.push('\n'); }
                     t.push_str(&members[*m].replace("{N}", &format!("{}", pos)));
                     t.push('\n');
